@@ -95,29 +95,68 @@ def iso_formula(g1, g2, node_eq, edge_eq, induced=True, bijective=True):
         return False
     if len(n1) > len(n2):
         return False
+    # backtracking over adjacency-consistent assignments; a node pair whose labels differ concretely is never tried
+    cand = {}
+    for u in n1:
+        cs = []
+        for w in n2:
+            if bijective and g1.degree(u) != g2.degree(w):
+                continue
+            if g1.degree(u) > g2.degree(w):
+                continue
+            c = node_eq(u, w)
+            if c is False:
+                continue
+            cs.append((w, c))
+        if not cs:
+            return False
+        cand[u] = cs
+    order = sorted(n1, key=lambda u: len(cand[u]))
     alts = []
-    for img in itertools.permutations(n2, len(n1)):
-        f = dict(zip(n1, img))
-        ok = True
-        conj = []
-        for u, v in g1.edges:
-            if not g2.has_edge(f[u], f[v]):
-                ok = False
-                break
-        if not ok:
-            continue
-        if induced:
-            for u, v in itertools.combinations(n1, 2):
-                if not g1.has_edge(u, v) and g2.has_edge(f[u], f[v]):
+    hit = [False]
+
+    def rec(i, f, used, conj):
+        if hit[0]:
+            return
+        if i == len(order):
+            c = AND(conj)
+            if c is True:
+                hit[0] = True
+            elif c is not False:
+                alts.append(c)
+            return
+        u = order[i]
+        for w, c in cand[u]:
+            if w in used:
+                continue
+            extra = [] if c is True else [c]
+            ok = True
+            for v, x in f.items():
+                e1, e2 = g1.has_edge(u, v), g2.has_edge(w, x)
+                if e1 and not e2:
                     ok = False
                     break
+                if induced and e2 and not e1:
+                    ok = False
+                    break
+                if e1:
+                    ce = edge_eq((u, v), (w, x))
+                    if ce is False:
+                        ok = False
+                        break
+                    if ce is not True:
+                        extra.append(ce)
             if not ok:
                 continue
-        for u in n1:
-            conj.append(node_eq(u, f[u]))
-        for u, v in g1.edges:
-            conj.append(edge_eq((u, v), (f[u], f[v])))
-        alts.append(AND(conj))
+            f[u] = w
+            used.add(w)
+            rec(i + 1, f, used, conj + extra)
+            used.discard(w)
+            del f[u]
+
+    rec(0, {}, set(), [])
+    if hit[0]:
+        return True
     return OR(alts)
 
 
